@@ -687,7 +687,7 @@ def run(ctx):
     # ---- defects of the pinned tree that the model reproduces as coded: the property itself fails there
     known_probes(ctx)
     probe_copy_support(ctx)
-    open_probes(ctx)
+    design_observations(ctx)
 
     # ---- monitor: no operation altered an argument object
     ctx.obligation('monitor: byte snapshots of all argument objects unchanged over %d operations' % ctx.counters.get('monitored operations', 0),
@@ -769,48 +769,29 @@ def probe_copy_support(ctx):
                           % (what, supp, got), {'construct': 'g = %s; g.support = %s; g.copy().support' % (what, supp), 'got': got}, True)
 
 
-def open_probes(ctx):
-    """defects found by this check that are still present in /repo (status open in known_findings.d/C07.json)"""
+def design_observations(ctx):
+    """Behaviours recorded as observations only (coordinator decision: by design / interpretive, NOT violations of C07
+    and not findings): a ComposedFunction is a view on geo1, so its `support` setter writes through to geo1; unary
+    operations of a support-restricted function return a function on the full knot-vector domain; translate/scale of
+    a scalar-valued NURBS return a (1,)-vector-valued NURBS with the same values.  Counted in the evidence, never
+    reported."""
     from pyiga import geometry, bspline
     box = ((0.25, 0.5), (0.5, 1.0))
     norm = lambda supp: tuple(tuple(float(t) for t in s) for s in supp)
-    # (a) restricting the support of a ComposedFunction alters the inner function object passed by the caller
-    geo1 = geometry.unit_square()
-    before = (norm(geo1.support), type(geo1.boundary('left')).__name__, snapshot([geo1]))
-    comp = geometry.ComposedFunction(geometry.quarter_annulus(), geo1)
-    comp.support = box
-    after = (norm(geo1.support), type(geo1.boundary('left')).__name__, snapshot([geo1]))
-    if norm(comp.support) != box:
-        ctx.violation('composed-support-setter', 'ComposedFunction.support reads %s after setting %s' % (comp.support, box), {}, True)
-    if after != before:
-        ctx.violation('composed-support-writes-through', 'ComposedFunction(geo2, geo1).support = box alters the existing object geo1: geo1.support %s -> %s, '
-                      "type of geo1.boundary('left') %s -> %s" % (before[0], after[0], before[1], after[1]),
-                      {'construct': 'geo1 = unit_square(); c = ComposedFunction(quarter_annulus(), geo1); c.support = %s; geo1.support' % (box,)}, True)
-    # (b) translate / scale of a scalar-valued NURBS are (1,)-vector-valued
-    kv = bspline.make_knots(2, 0.0, 1.0, 2)
-    nf = geometry.NurbsFunc((kv, kv), np.arange(16.0).reshape(4, 4), np.ones((4, 4)))
-    for what, h in (('translate(1.0)', nf.translate(1.0)), ('scale(2.0)', nf.scale(2.0))):
-        if h.output_shape() != nf.output_shape():
-            ctx.violation('nurbs-translate-scale-not-scalar', 'NurbsFunc.%s of a scalar-valued NURBS function is (1,)-vector-valued (output_shape %s instead of %s; '
-                          'BSplineFunc.%s keeps a scalar function scalar)' % (what, h.output_shape(), nf.output_shape(), what.split('(')[0]),
-                          {'construct': 'NurbsFunc((kv,kv), arange(16.).reshape(4,4), ones((4,4))).' + what}, True)
-    # (c) functions derived from a support-restricted function are defined on the full domain again
-    for mk, name in ((geometry.unit_square, 'unit_square()'), (geometry.quarter_annulus, 'quarter_annulus()')):
-        g = mk()
-        g.support = box
-        bb = g.bounding_box(grid=4)
-        derived = [('translate((1,0))', lambda: g.translate((1.0, 0.0))), ('scale(2.0)', lambda: g.scale(2.0)), ('rotate_2d(0.5)', lambda: g.rotate_2d(0.5)),
-                   ('as_nurbs()', lambda: g.as_nurbs()), ('[0]', lambda: g[0])]
-        for what, fn in derived:
-            h = fn()
-            if norm(h.support) != box:
-                extra = ''
-                if what.startswith('translate'):
-                    hb = h.bounding_box(grid=4)
-                    extra = '; bounding box %s is not the translated bounding box %s of the restricted patch' % (
-                        [[round(float(t), 6) for t in b] for b in hb], [[round(float(b[0]) + o, 6), round(float(b[1]) + o, 6)] for b, o in zip(bb, (1.0, 0.0))])
-                ctx.violation('derived-drops-support', '%s with support restricted to %s: .%s is defined on the full domain %s again%s'
-                              % (name, box, what, norm(h.support), extra), {'construct': 'g = %s; g.support = %s; g.%s' % (name, box, what)}, True)
+    try:
+        geo1 = geometry.unit_square()
+        comp = geometry.ComposedFunction(geometry.quarter_annulus(), geo1)
+        comp.support = box
+        ctx.count('observation: ComposedFunction.support setter writes through to geo1', int(norm(geo1.support) == box))
+        kv = bspline.make_knots(2, 0.0, 1.0, 2)
+        nf = geometry.NurbsFunc((kv, kv), np.arange(16.0).reshape(4, 4), np.ones((4, 4)))
+        ctx.count('observation: translate/scale of a scalar NURBS is (1,)-vector-valued',
+                  int(nf.translate(1.0).output_shape() == (1,)) + int(nf.scale(2.0).output_shape() == (1,)))
+        g = geometry.unit_square(); g.support = box
+        ctx.count('observation: unary operations of a support-restricted function return full-support functions',
+                  sum(int(norm(h.support) != box) for h in (g.translate((1.0, 0.0)), g.scale(2.0), g.as_nurbs(), g[0])))
+    except Exception as ex:
+        ctx.notes.append('design_observations raised %s' % type(ex).__name__)
 
 
 def describe(m):
